@@ -1280,6 +1280,31 @@ func c01total(p *Program, r *Report, addrTypes []*types.Named) {
 								if v == ssa.Value(fn.Params[0]) {
 									filled = true
 								}
+								// `var h [N]byte; copy(h[:], hash); return &T{hash: h, …}` (benign round 4, C01-y1): the stored
+								// value is a load of a local array that a copy from the argument filled
+								if ld, isLd := st.Val.(*ssa.UnOp); isLd && ld.Op == token.MUL {
+									if la, isAl := ld.X.(*ssa.Alloc); isAl {
+										for _, bb := range fn.Blocks {
+											for _, ii := range bb.Instrs {
+												cc, ok := ii.(*ssa.Call)
+												if !ok || !isBuiltin(&cc.Call, "copy") || len(cc.Call.Args) != 2 {
+													continue
+												}
+												dsl, ok := cc.Call.Args[0].(*ssa.Slice)
+												if !ok || dsl.X != ssa.Value(la) {
+													continue
+												}
+												src := cc.Call.Args[1]
+												if ssl, isSl := src.(*ssa.Slice); isSl {
+													src = ssl.X
+												}
+												if src == ssa.Value(fn.Params[0]) && (bb == b || bb.Dominates(b)) {
+													filled = true
+												}
+											}
+										}
+									}
+								}
 							}
 							continue
 						}
